@@ -15,3 +15,302 @@ pub(crate) use chordal_info::*;
 pub(crate) use merge::*;
 pub(crate) use sparsity_pattern::*;
 pub(crate) use supernode_tree::*;
+
+// ---------------------------------------------------------------------------
+// verification hooks (add-only, off unless feature `verif-hooks` is enabled).
+// Thin call-through wrappers that expose the chordal analysis / decomposition
+// on plain vectors.  Re-exported as `clarabel::verif_hooks::chordal`.
+#[cfg(feature = "verif-hooks")]
+#[allow(non_snake_case)]
+#[allow(missing_docs)]
+pub mod verif_hooks {
+    use super::*;
+    use crate::algebra::*;
+    use crate::solver::{DefaultSettings, DefaultVariables, SupportedConeT};
+
+    fn to_vecs(sets: &[VertexSet]) -> Vec<Vec<usize>> {
+        sets.iter().map(|s| s.iter().copied().collect()).collect()
+    }
+    fn to_sets(vs: &[Vec<usize>]) -> Vec<VertexSet> {
+        vs.iter().map(|v| v.iter().copied().collect()).collect()
+    }
+
+    /// `SuperNodeTree` with the vertex sets in their insertion order
+    #[derive(Clone, Debug, Default, PartialEq)]
+    pub struct TreeDump {
+        pub snode: Vec<Vec<usize>>,
+        pub snode_post: Vec<usize>,
+        pub snode_parent: Vec<usize>,
+        pub snode_children: Vec<Vec<usize>>,
+        pub post: Vec<usize>,
+        pub separators: Vec<Vec<usize>>,
+        pub nblk: Option<Vec<usize>>,
+        pub n_cliques: usize,
+    }
+
+    pub const NO_PARENT: usize = super::NO_PARENT;
+    pub const INACTIVE_NODE: usize = super::INACTIVE_NODE;
+
+    pub(crate) fn dump_tree(t: &SuperNodeTree) -> TreeDump {
+        TreeDump {
+            snode: to_vecs(&t.snode),
+            snode_post: t.snode_post.clone(),
+            snode_parent: t.snode_parent.clone(),
+            snode_children: to_vecs(&t.snode_children),
+            post: t.post.clone(),
+            separators: to_vecs(&t.separators),
+            nblk: t.nblk.clone(),
+            n_cliques: t.n_cliques,
+        }
+    }
+    pub(crate) fn load_tree(d: &TreeDump) -> SuperNodeTree {
+        SuperNodeTree {
+            snode: to_sets(&d.snode),
+            snode_post: d.snode_post.clone(),
+            snode_parent: d.snode_parent.clone(),
+            snode_children: to_sets(&d.snode_children),
+            post: d.post.clone(),
+            separators: to_sets(&d.separators),
+            nblk: d.nblk.clone(),
+            n_cliques: d.n_cliques,
+        }
+    }
+
+    // ---- analysis stages ----
+
+    /// symbolic factor of the pattern + AMD ordering (`find_graph`)
+    pub fn find_graph(nz_mask: &[bool]) -> (CscMatrix<f64>, Vec<usize>) {
+        vh_chordal_info::find_graph(nz_mask)
+    }
+    pub fn connect_graph(L: &mut CscMatrix<f64>) {
+        vh_chordal_info::connect_graph(L)
+    }
+    pub fn find_aggregate_sparsity_mask(A: &CscMatrix<f64>, b: &[f64]) -> Vec<bool> {
+        vh_chordal_info::find_aggregate_sparsity_mask(A, b)
+    }
+    pub fn supernode_tree_new(L: &CscMatrix<f64>) -> TreeDump {
+        dump_tree(&SuperNodeTree::new(L))
+    }
+    /// `merge_cliques` of the named strategy (no guard on `n_cliques`)
+    pub fn merge_cliques(d: &TreeDump, merge_method: &str) -> TreeDump {
+        let mut t = load_tree(d);
+        match merge_method {
+            "none" => NoMergeStrategy::new().merge_cliques(&mut t),
+            "parent_child" => ParentChildMergeStrategy::new().merge_cliques(&mut t),
+            "clique_graph" => CliqueGraphMergeStrategy::new().merge_cliques(&mut t),
+            _ => panic!("Unrecognized merge strategy"),
+        }
+        dump_tree(&t)
+    }
+    pub fn reorder_snode_consecutively(d: &TreeDump, ordering: &[usize]) -> (TreeDump, Vec<usize>) {
+        let mut t = load_tree(d);
+        let mut ordering = ordering.to_vec();
+        t.reorder_snode_consecutively(&mut ordering);
+        (dump_tree(&t), ordering)
+    }
+    pub fn calculate_block_dimensions(d: &TreeDump) -> TreeDump {
+        let mut t = load_tree(d);
+        t.calculate_block_dimensions();
+        dump_tree(&t)
+    }
+    /// `SparsityPattern::new`
+    pub fn sparsity_pattern_new(
+        L: CscMatrix<f64>,
+        ordering: Vec<usize>,
+        orig_index: usize,
+        merge_method: &str,
+    ) -> (TreeDump, Vec<usize>) {
+        let sp = SparsityPattern::new(L, ordering, orig_index, merge_method);
+        (dump_tree(&sp.sntree), sp.ordering)
+    }
+    pub fn post_order(parent: &[usize], children: &[Vec<usize>], nc: usize) -> (Vec<usize>, Vec<Vec<usize>>) {
+        let mut post = vec![];
+        let mut ch = to_sets(children);
+        super::post_order(&mut post, parent, &mut ch, nc);
+        (post, to_vecs(&ch))
+    }
+    pub fn split_cliques(
+        snode: &[Vec<usize>],
+        separators: &[Vec<usize>],
+        snode_parent: &[usize],
+        snode_post: &[usize],
+        num_cliques: usize,
+    ) -> (Vec<Vec<usize>>, Vec<Vec<usize>>) {
+        let mut sn = to_sets(snode);
+        let mut sp = to_sets(separators);
+        vh_clique_graph::split_cliques(&mut sn, &mut sp, snode_parent, snode_post, num_cliques);
+        (to_vecs(&sn), to_vecs(&sp))
+    }
+    pub fn kruskal(E: &mut CscMatrix<isize>, num_cliques: usize) {
+        vh_clique_graph::kruskal(E, num_cliques)
+    }
+    pub fn determine_parent_cliques(
+        snode_parent: &mut [usize],
+        snode_children: &[Vec<usize>],
+        cliques: &[Vec<usize>],
+        post: &[usize],
+        E: &CscMatrix<isize>,
+    ) -> Vec<Vec<usize>> {
+        let mut ch = to_sets(snode_children);
+        vh_clique_graph::determine_parent_cliques(snode_parent, &mut ch, &to_sets(cliques), post, E);
+        to_vecs(&ch)
+    }
+    pub fn compute_reduced_clique_graph(
+        separators: &[Vec<usize>],
+        snode: &[Vec<usize>],
+    ) -> (Vec<usize>, Vec<usize>) {
+        let mut sp = to_sets(separators);
+        vh_clique_graph::compute_reduced_clique_graph(&mut sp, &to_sets(snode))
+    }
+
+    // ---- union-find ----
+
+    pub struct Dsu(DisjointSetUnion);
+    impl Dsu {
+        pub fn new(n: usize) -> Self {
+            Dsu(DisjointSetUnion::new(n))
+        }
+        pub fn from_state(parents: Vec<usize>, ranks: Vec<usize>) -> Self {
+            Dsu(DisjointSetUnion::vh_from_state(parents, ranks))
+        }
+        pub fn union(&mut self, x: usize, y: usize) {
+            self.0.union(x, y)
+        }
+        pub fn in_same_set(&mut self, x: usize, y: usize) -> bool {
+            self.0.in_same_set(x, y)
+        }
+        pub fn root(&mut self, x: usize) -> usize {
+            self.0.vh_root(x)
+        }
+        /// (parents, ranks)
+        pub fn state(&self) -> (Vec<usize>, Vec<usize>) {
+            self.0.vh_state()
+        }
+    }
+
+    // ---- packed-triangle index maps (src/algebra/scalarmath.rs) ----
+
+    pub fn triangular_number(k: usize) -> usize {
+        crate::algebra::triangular_number(k)
+    }
+    pub fn triangular_index(k: usize) -> usize {
+        crate::algebra::triangular_index(k)
+    }
+    pub fn upper_triangular_index_to_coord(k: usize) -> (usize, usize) {
+        crate::algebra::upper_triangular_index_to_coord(k)
+    }
+    pub fn coord_to_upper_triangular_index(c: (usize, usize)) -> usize {
+        crate::algebra::coord_to_upper_triangular_index(c)
+    }
+
+    // ---- decomposition / reversal ----
+
+    /// `ConeMapEntry` as a tuple (orig_index, tree_and_clique)
+    pub type ConeMap = (usize, Option<(usize, usize)>);
+
+    pub struct Info(pub(crate) ChordalInfo<f64>);
+
+    impl Info {
+        /// `ChordalInfo::new`
+        pub fn new(
+            A: &CscMatrix<f64>,
+            b: &[f64],
+            cones: &[SupportedConeT<f64>],
+            settings: &DefaultSettings<f64>,
+        ) -> Self {
+            Info(ChordalInfo::new(A, b, cones, settings))
+        }
+        /// build from given patterns (tree, ordering, orig_index) without running the analysis
+        pub fn from_parts(
+            init_dims: (usize, usize),
+            init_cones: Vec<SupportedConeT<f64>>,
+            patterns: &[(TreeDump, Vec<usize>, usize)],
+        ) -> Self {
+            let spatterns = patterns
+                .iter()
+                .map(|(t, o, i)| SparsityPattern {
+                    sntree: load_tree(t),
+                    ordering: o.clone(),
+                    orig_index: *i,
+                })
+                .collect();
+            Info(ChordalInfo {
+                init_dims,
+                init_cones,
+                spatterns,
+                H: None,
+                cone_maps: None,
+            })
+        }
+        pub fn is_decomposed(&self) -> bool {
+            self.0.is_decomposed()
+        }
+        pub fn init_dims(&self) -> (usize, usize) {
+            self.0.init_dims
+        }
+        pub fn init_cones(&self) -> Vec<SupportedConeT<f64>> {
+            self.0.init_cones.clone()
+        }
+        /// (tree, ordering, orig_index) per decomposed cone
+        pub fn patterns(&self) -> Vec<(TreeDump, Vec<usize>, usize)> {
+            self.0
+                .spatterns
+                .iter()
+                .map(|sp| (dump_tree(&sp.sntree), sp.ordering.clone(), sp.orig_index))
+                .collect()
+        }
+        pub fn H(&self) -> Option<CscMatrix<f64>> {
+            self.0.H.clone()
+        }
+        pub fn cone_maps(&self) -> Option<Vec<ConeMap>> {
+            self.0
+                .cone_maps
+                .as_ref()
+                .map(|v| v.iter().map(|e| (e.orig_index, e.tree_and_clique)).collect())
+        }
+        pub fn get_decomposed_dim_and_overlaps(&self) -> (usize, usize) {
+            self.0.get_decomposed_dim_and_overlaps()
+        }
+        pub fn find_standard_H_and_cones(&mut self) -> (CscMatrix<f64>, Vec<SupportedConeT<f64>>) {
+            self.0.vh_find_standard_H_and_cones()
+        }
+        pub fn find_compact_A_b_and_cones(
+            &mut self,
+            A: &CscMatrix<f64>,
+            b: &[f64],
+        ) -> (CscMatrix<f64>, Vec<f64>, Vec<SupportedConeT<f64>>) {
+            self.0.vh_find_compact_A_b_and_cones(A, b)
+        }
+        #[allow(clippy::type_complexity)]
+        pub fn decomp_augment(
+            &mut self,
+            P: &CscMatrix<f64>,
+            q: &[f64],
+            A: &CscMatrix<f64>,
+            b: &[f64],
+            settings: &DefaultSettings<f64>,
+        ) -> (CscMatrix<f64>, Vec<f64>, CscMatrix<f64>, Vec<f64>, Vec<SupportedConeT<f64>>) {
+            self.0.decomp_augment(P, q, A, b, settings)
+        }
+        /// `decomp_reverse` on (x,s,z) of the augmented problem; returns (x,s,z)
+        pub fn decomp_reverse(
+            &self,
+            x: &[f64],
+            s: &[f64],
+            z: &[f64],
+            old_cones: &[SupportedConeT<f64>],
+            settings: &DefaultSettings<f64>,
+        ) -> (Vec<f64>, Vec<f64>, Vec<f64>) {
+            let mut old = DefaultVariables::<f64>::new(x.len(), s.len());
+            old.x.copy_from_slice(x);
+            old.s.copy_from_slice(s);
+            old.z.copy_from_slice(z);
+            let new = self.0.decomp_reverse(&old, old_cones, settings);
+            (new.x, new.s, new.z)
+        }
+        /// `psd_complete` applied to a dense column-major matrix with pattern `k`
+        pub fn psd_complete(&self, k: usize, data: Vec<f64>, n: usize) -> Vec<f64> {
+            ChordalInfo::<f64>::vh_psd_complete(data, n, &self.0.spatterns[k])
+        }
+    }
+}
